@@ -15,8 +15,10 @@ theorem lruAdd_after_insert (c : CacheG T) (k v : Nat) (h : c.Inv) :
     let c0 : CacheG T := { c with data := ainsert c.data k v }
     (CacheG.lruAdd ts c0 k).1.Inv ∧ (CacheG.lruAdd ts c0 k).1.limit = c.limit
     ∧ ((CacheG.lruAdd ts c0 k).2 = [] ∧ (CacheG.lruAdd ts c0 k).1.data = ainsert c.data k v
+         ∧ (CacheG.lruAdd ts c0 k).1.timers = c.timers
        ∨ ∃ old, (CacheG.lruAdd ts c0 k).2 = [old] ∧ (CacheG.lruAdd ts c0 k).1.data = aerase (ainsert c.data k v) old
-           ∧ c.lru.getLast? = some old ∧ old ≠ k ∧ k ∉ c.lru ∧ c.lru.length = c.limit) := by
+           ∧ c.lru.getLast? = some old ∧ old ≠ k ∧ k ∉ c.lru ∧ c.lru.length = c.limit
+           ∧ (CacheG.lruAdd ts c0 k).1.timers = (ts c.timers (.remove old)).1) := by
   intro c0
   exact lruAdd_spec ts c0 k (nodup_ainsert _ _ _ h.nodupData) h.nodupLru h.lruLen (fun hl k' => by
     show (k' ∈ c.lru ∨ k' = k) ↔ k' ∈ akeys (ainsert c.data k v)
@@ -36,7 +38,7 @@ theorem lruAdd_hit (c : CacheG T) (k : Nat) (h : c.Inv) (hk : k ∈ akeys c.data
     · exact Or.inl)
   refine ⟨h1, h2, ?_⟩
   rcases h3 with h3 | ⟨old, _, _, _, _, hnot, _⟩
-  · exact h3
+  · exact ⟨h3.1, h3.2.1⟩
   · by_cases hl : 0 < c.limit
     · exact absurd ((h.sameKeys hl k).2 hk) hnot
     · have : c.limit = 0 := by omega
@@ -130,7 +132,7 @@ theorem set_lookup (c : CacheG T) (k v t : Nat) (h : c.Inv) (k' : Nat) :
       (C12.Op.set k v t)).2
   · simp [hx]
   · simp only [hx, if_false, false_or]
-    rcases h3 with ⟨e1, e2⟩ | ⟨old, e1, e2, _⟩
+    rcases h3 with ⟨e1, e2, _⟩ | ⟨old, e1, e2, _⟩
     · rw [e1, e2, alookup_ainsert]; simp
     · rw [e1, e2, alookup_aerase, alookup_ainsert]
       simp only [List.mem_singleton]
